@@ -29,6 +29,7 @@ def model_check(ctx):
     ctx.mc("MC_Writers", "MC_Writers.cfg" if ctx.thorough else "MC_Writers_q.cfg")
     ctx.mc_expect("MC_Writers", "DEV_Writers_1.cfg", "PropOwnInputs")
     ctx.mc_expect("MC_Writers", "DEV_Writers_2.cfg", "PropOwnInputs")
+    ctx.mc_expect("MC_Writers", "DEV_Writers_3.cfg", "PropOwnInputs")
 
 
 def cases(ctx):
@@ -95,7 +96,11 @@ def _project(path, d_expected):
            "readback": 0}
     if out["fmt"] == "xml":
         from lxml import etree
-        root = etree.fromstring(raw)
+        try:
+            root = etree.fromstring(raw)
+        except etree.XMLSyntaxError:                              # not a well-formed document: no writer's F(...)
+            out["fmt"] = "garbled"
+            return out, hashlib.sha1(raw).hexdigest()
         out["copies"] = sum(1 for e in root.findall("lanelet") if e.get("id") == "1")
         out["pp"] = len(root.findall("planningProblem"))
         # decimal places of every written probe number (all numbers whose fraction starts with the probe digits)
@@ -111,7 +116,11 @@ def _project(path, d_expected):
     else:
         from commonroad.scenario_definition.protobuf_format.generated_scripts import commonroad_pb2
         msg = commonroad_pb2.CommonRoad()
-        msg.ParseFromString(raw)
+        try:
+            msg.ParseFromString(raw)
+        except Exception:
+            out["fmt"] = "garbled"
+            return out, hashlib.sha1(raw).hexdigest()
         out["copies"] = sum(1 for la in msg.lanelets if la.lanelet_id == 1)
         out["pp"] = len(msg.planning_problems)
         for f in [fd.name for fd, _ in msg.information.date.ListFields()]:
